@@ -16,6 +16,8 @@ NA = {
 }
 counts = {}
 for o in registry.OBLIGATIONS:
+    if o.get("canary"):
+        continue   # the deliberately false vacuity canaries are not obligations of any property
     for p in o["props"]:
         counts.setdefault(p, {}).setdefault(o["engine"] if o.get("kind") != "bounded" or o["engine"] != "kani" else "kani-bounded", 0)
         k = o["engine"] if not (o["engine"] == "kani" and o.get("kind") == "bounded") else "kani-bounded"
@@ -58,10 +60,14 @@ for p in props:
             "replay_cmd_template": "./check --replay {path}",
             "engine": "+".join(k for k in ("kani", "verus", "kani-bounded", "bounded", "scan") if c.get(k)),
             "level_claimed": {
-                "category": "proof",
-                "text": "contracts on the functions that carry the property (%s); proof obligations: %d Kani full-domain/modular + %d Verus unbounded; "
-                        "labelled bounded stand-ins (not counted as proved): %d Kani-bounded + %d native" % (
-                            registry.PROPERTIES[pid]["explanation"], c.get("kani", 0), c.get("verus", 0), c.get("kani-bounded", 0), c.get("bounded", 0)),
+                "category": "proof" if (c.get("kani", 0) + c.get("verus", 0)) else "exploration",
+                "text": ("contracts on the functions that carry the property (%s); proof obligations: %d Kani full-domain/modular + %d Verus unbounded; "
+                         "labelled bounded stand-ins (not counted as proved): %d Kani-bounded + %d native" % (
+                             registry.PROPERTIES[pid]["explanation"], c.get("kani", 0), c.get("verus", 0), c.get("kani-bounded", 0), c.get("bounded", 0)))
+                        + ("" if (c.get("kani", 0) + c.get("verus", 0)) else
+                           " - NO obligation of this property is discharged by a deductive verifier: every function it depends on (str::lines, the pom grammars, "
+                           "BTreeMap glue) is outside Kani and Verus; the function contracts are checked by bounded-exhaustive native stand-ins only, which is "
+                           "exploration of the stated finite domains, not proof"),
                 "design_ref": "DESIGN.md section 4, " + pid,
             },
             "level_note": "assumed: " + "; ".join(registry.PROPERTIES[pid]["assumptions"] + registry.COMMON_ASSUMPTIONS[:2]),
